@@ -55,6 +55,7 @@ class WandBConfig:
         wandb_mode: (str) "offline" if only local logging is required. Default: "None".
         prv_runid: (str) Previous run ID if training should be resumed from a previous ckpt. Default: None.
         group: (str) Group for wandb logging.
+        run_id: (str) ID of the wandb run. This is set automatically when the training ends. Default: None.
     """
 
     entity: Optional[str] = None
@@ -64,6 +65,7 @@ class WandBConfig:
     wandb_mode: Optional[str] = None
     prv_runid: Optional[str] = None
     group: Optional[str] = None
+    run_id: Optional[str] = None
 
 
 @define
